@@ -283,6 +283,7 @@ def screen_job(name, groups, flaggable, cand, names=0, twin=False,
         obs.append(('permutation-same-data', set(zip(g2[gcol], g2[dcol])) ==
                     set(got_keys)))
     else:
+      info['noisy_hint'] = list(flaggable)
       # ValueError is legitimate only when a whole group was screened away:
       # cannot observe the reported geos then; check through the stub table
       obs.append(('valueerror-only-if-group-gone', any(
@@ -296,7 +297,8 @@ def screen_job(name, groups, flaggable, cand, names=0, twin=False,
       w = eng_.witness()
       js.r['violations'].append(dict(case=dict(
           kind='screen', groups=groups, names=names, cells=None,
-          note=repr(res[1])), twin=twin,
+          note=repr(res[1]), dup_index=dup_index, info=dict(
+              noisy=list(flaggable), outliers=['?'] * len(cand))), twin=twin,
                                      detail='exception %r' % (res[1],)))
       return
     obs, cells, info = res[1]
@@ -369,8 +371,8 @@ def replay(case):
   from matched_markets.methodology import tbrdiagnostics as TD
   base_groups, names = case['groups'], case['names']
   info = case.get('info') or {}
-  want_noisy = info.get('noisy', [])
-  want_out = len(info.get('outliers', []))
+  want_noisy = info.get('noisy') or info.get('noisy_hint') or []
+  want_out = len(info.get('outliers') or [])
   groups = list(base_groups) * 3       # enough geos for the real detectors
   n_dates, n_pre = 60, 45
   kinds = set()
@@ -395,7 +397,15 @@ def replay(case):
     snap = df.copy()
     try:
       td = run_fit(TD, df, kw)
-    except ValueError:
+    except ValueError as ex:
+      # legitimate only if a whole group can have been screened away; here
+      # only the planted geos are noisy and both groups keep clean geos
+      left = {groups[g] for g in range(len(groups)) if g not in want_noisy}
+      if 'c' in left and 't' in left:
+        return dict(violates=True, key='C19:valueerror-with-both-groups-left',
+                    detail='fit raised %s although both groups keep clean '
+                    'geos (planted noisy geos %s, seed %d)' % (
+                        ex, want_noisy, seed))
       continue
     except Exception as e:  # pylint: disable=broad-except
       return dict(violates=True, key='C19:exception:%s' % type(e).__name__,
